@@ -605,6 +605,9 @@ func genHist(r *vh.Rand) in {
 		case x < 45:
 			used = append(used, req)
 			ti := r.Intn(ntx)
+			if r.Chance(1, 2) { // the same Get before and after: a rejected Set must not change the answer
+				ops = append(ops, op{K: "get", I: ti, Req: strings.Join(req, ".")})
+			}
 			ops = append(ops, op{K: "set", I: ti, Req: strings.Join(req, "."), V: genFor(req)})
 			// read back at once through the same transaction: the request itself and the requests of the rules below it
 			if r.Chance(3, 4) {
@@ -771,7 +774,9 @@ func genOverlap(r *vh.Rand) in {
 		if r.Chance(1, 6) {
 			val[r.Pick(reqKeys)] = scalar(r) // possibly unused data: must be rejected whatever the order
 		}
-		ops := []op{{K: "new"}, {K: "set", Req: pre, V: val}}
+		ops := []op{{K: "new"}}
+		ops = append(ops, readBacks(reqs, []string{pre}, 0, 4)...)
+		ops = append(ops, op{K: "set", Req: pre, V: val})
 		ops = append(ops, readBacks(reqs, []string{pre}, 0, 4)...)
 		ops = append(ops, op{K: "commit"}, op{K: "new"})
 		ops = append(ops, readBacks(reqs, []string{pre}, 1, 4)...)
